@@ -34,30 +34,30 @@ Proof.
   destruct (Z.ltb_spec (blen d1) m); [discriminate|]. rewrite out_bind. unfold rbind. rewrite out_take_ok by lia. discriminate.
 Qed.
 
-Lemma tuple_read_bytes_site d c : 4 <= blen d -> out tuple_read_bytes d = Crash c -> c = CTupleField.
+Lemma tuple_read_bytes_no_crash d c : 4 <= blen d -> out tuple_read_bytes d <> Crash c.
 Proof.
   intros H4. unfold tuple_read_bytes. rewrite out_bind. unfold rbind. rewrite out_take_ok by lia.
-  destruct (signed 32 (be_dec (firstn (Z.to_nat 4) d)) <? 0); [discriminate|]. rewrite out_bind. unfold rbind.
-  unfold out at 1, take. destruct ((_ <? 0) || (_ <? _)); cbn [fst]; [intros H; inversion H; reflexivity | discriminate].
+  match goal with |- context [?x <? 0] => destruct (Z.ltb_spec x 0) as [Hn|Hn] end; [discriminate|].
+  rewrite out_bind. unfold rbind. rewrite out_get_len.
+  match goal with |- context [blen ?r <? ?x] => destruct (Z.ltb_spec (blen r) x) as [Hlt|Hge] end; [discriminate|].
+  rewrite out_bind. unfold rbind. rewrite out_take_ok by lia. discriminate.
 Qed.
 
-Lemma unmarshal_leaf_site typ data c : unmarshal_leaf typ data = Crash c -> c = CDateShort.
+Lemma unmarshal_leaf_no_crash typ data c : unmarshal_leaf typ data <> Crash c.
 Proof.
   unfold unmarshal_leaf. cbv zeta.
   destruct (typ =? K.TypeDecimal). { destruct data; [destruct (_ <? 4)|]; discriminate. }
-  destruct (typ =? K.TypeDate). { destruct (_ =? 0); [discriminate|]. destruct (_ <? 4); [intros H; inversion H; reflexivity | discriminate]. }
+  destruct (typ =? K.TypeDate). { destruct (_ =? 0); [discriminate|]. destruct (_ <? 4); discriminate. }
   destruct ((typ =? K.TypeUUID) || (typ =? K.TypeTimeUUID)). { destruct ((_ =? 0) || (_ =? 16)); discriminate. }
   destruct (typ =? K.TypeDuration); [|discriminate].
   destruct (_ =? 0); [discriminate|].
   destruct (dec_vint _ 0) as [i|]; [|discriminate]. destruct (dec_vint _ i) as [j|]; [|discriminate]. destruct (dec_vint _ j); discriminate.
 Qed.
 
-Definition unmarshal_sites : list crashc := [CListNeg; CTupleField; CDateShort; CMapKey].
-
-Lemma go_type_guard_site t c : tinfo_ok t ->
-  match go_type t with Ok _ => Ok tt | Err _ => Err EUnmarshal | Crash c0 => Crash c0 end = Crash c -> c = CMapKey.
+Lemma go_type_guard_no_crash t c : tinfo_ok t ->
+  match go_type t with Ok _ => Ok tt | Err _ => Err EUnmarshal | Crash c0 => Crash c0 end <> Crash c.
 Proof.
-  intros Hok H. destruct (go_type t) as [x|e|c0] eqn:E; try discriminate. inversion H; subst. eapply go_type_sites; eassumption.
+  intros Hok H. destruct (go_type t) as [x|e|c0] eqn:E; try discriminate. eapply go_type_safe; eassumption.
 Qed.
 
 Lemma tinfo_ok_udt cu ks n fs : tinfo_ok (TUDT cu ks n fs) <-> Forall (fun f => tinfo_ok (snd f)) fs.
@@ -69,63 +69,59 @@ Proof.
     + intros H. inversion H; subst. split; [assumption | apply IH; assumption].
 Qed.
 
-Lemma list_loop_sites um proto : (forall d c, um d = Crash c -> In c unmarshal_sites) ->
-  forall fuel n d c, list_loop um proto fuel n d = Crash c -> In c unmarshal_sites.
+Lemma list_loop_no_crash um proto : (forall d c, um d <> Crash c) ->
+  forall fuel n d c, list_loop um proto fuel n d <> Crash c.
 Proof.
   intros Hum. induction fuel as [|fuel IH]; intros n d c Hc; cbn [list_loop] in Hc; destruct (n <=? 0); try discriminate.
-  apply lift_crash in Hc. destruct Hc as [Hc | (ed & _ & Hc)]; [exfalso; eapply read_coll_elem_no_crash, Hc|].
+  apply lift_crash in Hc. destruct Hc as [Hc | (ed & _ & Hc)]; [eapply read_coll_elem_no_crash, Hc|].
   apply lift_crash in Hc. destruct Hc as [Hc | (u1 & _ & Hc)]; [eapply Hum, Hc | eapply IH, Hc].
 Qed.
 
-Lemma map_loop_sites uk uv proto :
-  (forall d c, uk d = Crash c -> In c unmarshal_sites) -> (forall d c, uv d = Crash c -> In c unmarshal_sites) ->
-  forall fuel n d c, map_loop uk uv proto fuel n d = Crash c -> In c unmarshal_sites.
+Lemma map_loop_no_crash uk uv proto : (forall d c, uk d <> Crash c) -> (forall d c, uv d <> Crash c) ->
+  forall fuel n d c, map_loop uk uv proto fuel n d <> Crash c.
 Proof.
   intros Huk Huv. induction fuel as [|fuel IH]; intros n d c Hc; cbn [map_loop] in Hc; destruct (n <=? 0); try discriminate.
-  apply lift_crash in Hc. destruct Hc as [Hc | (kd & _ & Hc)]; [exfalso; eapply read_coll_elem_no_crash, Hc|].
+  apply lift_crash in Hc. destruct Hc as [Hc | (kd & _ & Hc)]; [eapply read_coll_elem_no_crash, Hc|].
   apply lift_crash in Hc. destruct Hc as [Hc | (u1 & _ & Hc)]; [eapply Huk, Hc|].
-  apply lift_crash in Hc. destruct Hc as [Hc | (vd & _ & Hc)]; [exfalso; eapply read_coll_elem_no_crash, Hc|].
+  apply lift_crash in Hc. destruct Hc as [Hc | (vd & _ & Hc)]; [eapply read_coll_elem_no_crash, Hc|].
   apply lift_crash in Hc. destruct Hc as [Hc | (u2 & _ & Hc)]; [eapply Huv, Hc | eapply IH, Hc].
 Qed.
 
-Lemma unmarshal_sites_ok proto : forall t, tinfo_ok t -> forall data c, unmarshal proto t data = Crash c -> In c unmarshal_sites.
+Lemma unmarshal_no_crash proto : forall t, tinfo_ok t -> forall data c, unmarshal proto t data <> Crash c.
 Proof.
   induction t as [typ cu | typ cu k e IHk IHe | cu es IH | cu ks n fs IH] using tinfo_ind2; intros Hok data c Hc.
-  - cbn [unmarshal] in Hc. apply unmarshal_leaf_site in Hc. subst. right; right; left; reflexivity.
+  - cbn [unmarshal] in Hc. eapply unmarshal_leaf_no_crash, Hc.
   - destruct Hok as (Ht & Hk & He). cbn [unmarshal] in Hc. destruct data as [d|]; [|discriminate].
     destruct (Z.eqb_spec typ K.TypeMap) as [Em|Em].
     + destruct k as [k'|]; [|exfalso; apply Hk, Em]. destruct Hk as [_ Hk'].
-      apply lift_crash in Hc. destruct Hc as [Hc | (nd & _ & Hc)]; [exfalso; eapply read_coll_size_no_crash, Hc|].
+      apply lift_crash in Hc. destruct Hc as [Hc | (nd & _ & Hc)]; [eapply read_coll_size_no_crash, Hc|].
       destruct (fst nd <? 0); [discriminate|].
-      eapply map_loop_sites; [| |exact Hc]; [intros d0 c0; apply (IHk k' eq_refl Hk') | intros d0 c0; apply (IHe He)].
-    + apply lift_crash in Hc. destruct Hc as [Hc | (nd & _ & Hc)]; [exfalso; eapply read_coll_size_no_crash, Hc|].
-      destruct (fst nd <? 0); [inversion Hc; left; reflexivity|].
-      eapply list_loop_sites; [|exact Hc]. intros d0 c0; apply (IHe He).
+      eapply map_loop_no_crash; [| |exact Hc]; [intros d0 c0; apply (IHk k' eq_refl Hk') | intros d0 c0; apply (IHe He)].
+    + apply lift_crash in Hc. destruct Hc as [Hc | (nd & _ & Hc)]; [eapply read_coll_size_no_crash, Hc|].
+      destruct (fst nd <? 0); [discriminate|]. destruct (fst nd >? _); [discriminate|].
+      eapply list_loop_no_crash; [|exact Hc]. intros d0 c0; apply (IHe He).
   - apply tinfo_ok_tuple in Hok. cbn [unmarshal] in Hc. revert Hc. generalize (opt_bytes data) as d.
     induction IH as [|e es IHe IHes IHl]; intros d Hc; [discriminate|]. inversion Hok as [|? ? Hoke Hokes]; subst.
     apply lift_crash in Hc. destruct Hc as [Hc | (pd & _ & Hc)].
-    { destruct (Z.geb_spec (blen d) 4); [|discriminate]. apply tuple_read_bytes_site in Hc; [|assumption]. subst. right; left; reflexivity. }
-    apply lift_crash in Hc. destruct Hc as [Hc | (u0 & _ & Hc)].
-    { apply go_type_guard_site in Hc; [|assumption]. subst. right; right; right; left; reflexivity. }
+    { destruct (Z.geb_spec (blen d) 4); [|discriminate]. eapply tuple_read_bytes_no_crash; eassumption. }
+    apply lift_crash in Hc. destruct Hc as [Hc | (u0 & _ & Hc)]; [eapply go_type_guard_no_crash; eassumption|].
     apply lift_crash in Hc. destruct Hc as [Hc | (u1 & _ & Hc)]; [eapply IHe; eassumption|].
     eapply IHl; eassumption.
   - apply tinfo_ok_udt in Hok. cbn [unmarshal] in Hc. destruct data as [d|]; [|discriminate]. revert d Hc.
     induction IH as [|f fs IHf IHfs IHl]; intros d Hc; [discriminate|]. inversion Hok as [|? ? Hokf Hokfs]; subst.
     destruct f as [fnm ft]. cbn [snd] in *.
     destruct (Z.eqb_spec (blen d) 0); [discriminate|]. destruct (Z.ltb_spec (blen d) 4); [discriminate|].
-    apply lift_crash in Hc. destruct Hc as [Hc | (u0 & _ & Hc)].
-    { apply go_type_guard_site in Hc; [|assumption]. subst. right; right; right; left; reflexivity. }
-    apply lift_crash in Hc. destruct Hc as [Hc | (pd & _ & Hc)].
-    { apply tuple_read_bytes_site in Hc; [|lia]. subst. right; left; reflexivity. }
+    apply lift_crash in Hc. destruct Hc as [Hc | (u0 & _ & Hc)]; [eapply go_type_guard_no_crash; eassumption|].
+    apply lift_crash in Hc. destruct Hc as [Hc | (pd & _ & Hc)]; [eapply tuple_read_bytes_no_crash; [|eassumption]; lia|].
     apply lift_crash in Hc. destruct Hc as [Hc | (u1 & _ & Hc)]; [eapply IHf; eassumption|].
     eapply IHl; eassumption.
 Qed.
 
-Lemma unmarshal_new_sites proto t data c : tinfo_ok t -> unmarshal_new proto t data = Crash c -> In c unmarshal_sites.
+Lemma unmarshal_new_no_crash proto t data c : tinfo_ok t -> unmarshal_new proto t data <> Crash c.
 Proof.
   intros Hok. unfold unmarshal_new. destruct (go_type t) as [x|e|c0] eqn:E; try discriminate.
-  - apply unmarshal_sites_ok, Hok.
-  - intros H. inversion H; subst. apply (go_type_sites t Hok) in E. subst. right; right; right; left; reflexivity.
+  - apply unmarshal_no_crash, Hok.
+  - exfalso. eapply go_type_safe; eassumption.
 Qed.
 
 (* ---- getCassandraType: no panic at all ------------------------------------------------------------------- *)
@@ -165,81 +161,67 @@ Proof.
   specialize (Hgo l). match goal with |- lift ?g _ <> _ => destruct g end; cbn [lift]; try discriminate; contradiction.
 Qed.
 
-(* ---- parseType: the three panics of the typeParser ------------------------------------------------------------- *)
-Lemma char_at_site inp idx c : char_at inp idx = Crash c -> c = CTypeIdx.
-Proof. unfold char_at. destruct (nth_error inp idx); [discriminate | intros H; inversion H; reflexivity]. Qed.
-
-Lemma param_loop_site pc : (forall inp idx c, pc inp idx = Crash c -> c = CTypeIdx) ->
-  forall fuel inp idx acc c, param_loop pc fuel inp idx acc = Crash c -> c = CTypeIdx.
+(* ---- parseType: the typeParser never panics ------------------------------------------------------------------ *)
+Lemma param_loop_no_crash pc : (forall inp idx c, pc inp idx <> Crash c) ->
+  forall fuel inp idx acc c, param_loop pc fuel inp idx acc <> Crash c.
 Proof.
   intros Hpc. induction fuel as [|fuel IH]; intros inp idx acc c Hc; cbn [param_loop] in Hc; [discriminate|].
-  apply lift_crash in Hc. destruct Hc as [Hc | (ch & _ & Hc)]; [eapply char_at_site, Hc|].
+  destruct (nth_error inp idx) as [ch|]; [|discriminate].
   destruct (ch =? 41); [discriminate|]. cbv zeta in Hc.
   destruct (next_ident inp idx) as [[name idx1]|]; [|discriminate].
-  apply lift_crash in Hc. destruct Hc as [Hc | (c2 & _ & Hc)]; [eapply char_at_site, Hc|].
   apply lift_crash in Hc. destruct Hc as [Hc | (r & _ & Hc)]; [eapply Hpc, Hc|].
-  destruct (fst r) as [node|]; [|discriminate].
-  apply lift_crash in Hc. destruct Hc as [Hc | (c4 & _ & Hc)]; [eapply char_at_site, Hc|].
-  eapply IH, Hc.
+  destruct (fst r) as [node|]; [|discriminate]. eapply IH, Hc.
 Qed.
 
-Lemma parse_class_site : forall fuel inp idx c, parse_class fuel inp idx = Crash c -> c = CTypeIdx.
+Lemma parse_class_no_crash : forall fuel inp idx c, parse_class fuel inp idx <> Crash c.
 Proof.
   induction fuel as [|fuel IH]; intros inp idx c Hc; cbn [parse_class] in Hc; [discriminate|]. cbv zeta in Hc.
   destruct (next_ident inp (skip_ws inp idx)) as [[name idx1]|]; [|discriminate].
   apply lift_crash in Hc. destruct Hc as [Hc | (r & _ & Hc)].
   - unfold parse_params in Hc. cbv zeta in Hc. destruct (nth_error inp (skip_ws inp idx1)) as [ch|]; [|discriminate].
     destruct (Z.eq_dec ch 40) as [->|Hne].
-    + eapply param_loop_site; [exact (IH)|exact Hc].
-    + destruct ch as [|p|p]; try discriminate. repeat (destruct p as [p|p|]; try discriminate). exfalso. apply Hne. reflexivity.
+    + eapply param_loop_no_crash; [exact IH | exact Hc].
+    + destruct ch as [|p|p]; try discriminate. repeat (destruct p as [p|p|]; try discriminate). apply Hne. reflexivity.
   - destruct (fst r); discriminate.
 Qed.
 
-Lemma param_class_site ps i c : param_class ps i = Crash c -> c = CTypeParams.
-Proof. unfold param_class. destruct (nth_error ps i); [discriminate | intros H; inversion H; reflexivity]. Qed.
-
-Lemma as_type_info_site : forall fuel n c, as_type_info fuel n = Crash c -> c = CTypeParams.
+Lemma as_type_info_no_crash : forall fuel n c, as_type_info fuel n <> Crash c.
 Proof.
   induction fuel as [|fuel IH]; intros n c Hc; cbn [as_type_info] in Hc; [discriminate|].
   destruct (has_prefix (cn_name n) K.LIST_TYPE).
-  { apply lift_crash in Hc. destruct Hc as [Hc | (e & _ & Hc)]; [eapply param_class_site, Hc|].
+  { destruct (cn_params n) as [|e ps]; [discriminate|].
     apply lift_crash in Hc. destruct Hc as [Hc | (t & _ & Hc)]; [eapply IH, Hc | discriminate]. }
   destruct (has_prefix (cn_name n) K.SET_TYPE).
-  { apply lift_crash in Hc. destruct Hc as [Hc | (e & _ & Hc)]; [eapply param_class_site, Hc|].
+  { destruct (cn_params n) as [|e ps]; [discriminate|].
     apply lift_crash in Hc. destruct Hc as [Hc | (t & _ & Hc)]; [eapply IH, Hc | discriminate]. }
   destruct (has_prefix (cn_name n) K.MAP_TYPE); [|discriminate].
-  apply lift_crash in Hc. destruct Hc as [Hc | (k & _ & Hc)]; [eapply param_class_site, Hc|].
+  destruct (cn_params n) as [|k [|e ps]]; try discriminate.
   apply lift_crash in Hc. destruct Hc as [Hc | (kt & _ & Hc)]; [eapply IH, Hc|].
-  apply lift_crash in Hc. destruct Hc as [Hc | (e & _ & Hc)]; [eapply param_class_site, Hc|].
   apply lift_crash in Hc. destruct Hc as [Hc | (et & _ & Hc)]; [eapply IH, Hc | discriminate].
 Qed.
 
-Definition typestring_sites : list crashc := [CTypeIdx; CTypeParams; CTypeNilName].
-
-Lemma parse_type_sites def c : parse_type def = Crash c -> In c typestring_sites.
+Lemma parse_type_no_crash def c : parse_type def <> Crash c.
 Proof.
   unfold parse_type. cbv zeta. intros Hc.
-  apply lift_crash in Hc. destruct Hc as [Hc | (r & _ & Hc)]; [apply parse_class_site in Hc; subst; left; reflexivity|].
+  apply lift_crash in Hc. destruct Hc as [Hc | (r & _ & Hc)]; [eapply parse_class_no_crash, Hc|].
   destruct (fst r) as [ast|]; [|discriminate].
-  destruct (has_prefix (cn_name ast) K.COMPOSITE_TYPE).
-  - destruct (length (cn_params ast)) as [|cm1] eqn:El; [inversion Hc; right; left; reflexivity|].
-    apply lift_crash in Hc. destruct Hc as [Hc | (last & _ & Hc)]; [apply param_class_site in Hc; subst; right; left; reflexivity|].
-    cbv zeta in Hc. apply lift_crash in Hc. destruct Hc as [Hc | (colls & _ & Hc)].
-    + destruct (has_prefix (cn_name last) K.COLLECTION_TYPE); [|discriminate].
-      revert Hc. generalize (cn_params last) as ps. induction ps as [|[nm cls] ps IHp]; intros Hc; [discriminate|].
-      destruct nm as [n|]; [|inversion Hc; right; right; left; reflexivity].
-      apply lift_crash in Hc. destruct Hc as [Hc | (t & _ & Hc)]; [apply as_type_info_site in Hc; subst; right; left; reflexivity|].
-      apply lift_crash in Hc. destruct Hc as [Hc | (rest & _ & Hc)]; [apply IHp, Hc | discriminate].
-    + apply lift_crash in Hc. destruct Hc as [Hc | (trs & _ & Hc)]; [|discriminate].
-      revert Hc. generalize (firstn (if has_prefix (cn_name last) K.COLLECTION_TYPE then cm1 else S cm1) (cn_params ast)) as ps.
-      induction ps as [|[nm cls] ps IHp]; intros Hc; [discriminate|].
-      apply lift_crash in Hc. destruct Hc as [Hc | (cls' & _ & Hc)].
-      { destruct (has_prefix (cn_name cls) K.REVERSED_TYPE); [apply param_class_site in Hc; subst; right; left; reflexivity | discriminate]. }
-      apply lift_crash in Hc. destruct Hc as [Hc | (t & _ & Hc)]; [apply as_type_info_site in Hc; subst; right; left; reflexivity|].
-      apply lift_crash in Hc. destruct Hc as [Hc | (rest & _ & Hc)]; [apply IHp, Hc | discriminate].
-  - apply lift_crash in Hc. destruct Hc as [Hc | (cls & _ & Hc)].
-    { destruct (has_prefix (cn_name ast) K.REVERSED_TYPE); [apply param_class_site in Hc; subst; right; left; reflexivity | discriminate]. }
-    apply lift_crash in Hc. destruct Hc as [Hc | (t & _ & Hc)]; [apply as_type_info_site in Hc; subst; right; left; reflexivity | discriminate].
+  assert (Hnc : lift (as_type_info (S (length def)) (snd (unreverse ast)))
+                  (fun t => Ok {| tr_composite := false; tr_types := [t]; tr_reversed := [fst (unreverse ast)]; tr_collections := [] |})
+                <> Crash c).
+  { intros H. apply lift_crash in H. destruct H as [H | (t & _ & H)]; [eapply as_type_info_no_crash, H | discriminate]. }
+  destruct (has_prefix (cn_name ast) K.COMPOSITE_TYPE); [|exact (Hnc Hc)].
+  destruct (rev (cn_params ast)) as [|lastp before_rev]; [exact (Hnc Hc)|].
+  cbv zeta in Hc. apply lift_crash in Hc. destruct Hc as [Hc | (colls & _ & Hc)].
+  - destruct (has_prefix (cn_name (snd lastp)) K.COLLECTION_TYPE); [|discriminate].
+    revert Hc. generalize (cn_params (snd lastp)) as ps. induction ps as [|[nm cls] ps IHp]; intros Hc; [discriminate|].
+    destruct nm as [n|]; [|exact (IHp Hc)].
+    apply lift_crash in Hc. destruct Hc as [Hc | (t & _ & Hc)]; [eapply as_type_info_no_crash, Hc|].
+    apply lift_crash in Hc. destruct Hc as [Hc | (rest & _ & Hc)]; [exact (IHp Hc) | discriminate].
+  - apply lift_crash in Hc. destruct Hc as [Hc | (trs & _ & Hc)]; [|discriminate].
+    revert Hc. generalize (if has_prefix (cn_name (snd lastp)) K.COLLECTION_TYPE then rev before_rev else cn_params ast) as ps.
+    induction ps as [|[nm cls] ps IHp]; intros Hc; [discriminate|].
+    cbv zeta in Hc. apply lift_crash in Hc. destruct Hc as [Hc | (t & _ & Hc)]; [eapply as_type_info_no_crash, Hc|].
+    apply lift_crash in Hc. destruct Hc as [Hc | (rest & _ & Hc)]; [exact (IHp Hc) | discriminate].
 Qed.
 
 (* ---- getCassandraType: the fuel of the model is never exhausted ------------------------------------------- *)
@@ -455,11 +437,13 @@ Proof.
   destruct (dec_vint _ 0) as [i|]; [|discriminate]. destruct (dec_vint _ i) as [j|]; [|discriminate]. destruct (dec_vint _ j); discriminate.
 Qed.
 
-Lemma tuple_read_bytes_err d e : out tuple_read_bytes d <> Err e.
+Lemma tuple_read_bytes_err d e : out tuple_read_bytes d = Err e -> e = EUnmarshal.
 Proof.
   unfold tuple_read_bytes. rewrite out_bind. unfold rbind. unfold out at 1, take.
   destruct ((4 <? 0) || (blen d <? 4)); cbn [fst]; [discriminate|].
-  match goal with |- context [?x <? 0] => destruct (x <? 0) end; [discriminate|]. rewrite out_bind. unfold rbind. unfold out at 1, take.
+  match goal with |- context [?x <? 0] => destruct (x <? 0) end; [discriminate|]. rewrite out_bind. unfold rbind. rewrite out_get_len.
+  match goal with |- context [blen ?r <? ?x] => destruct (Z.ltb_spec (blen r) x) as [Hlt|Hge] end; [intros H; inversion H; reflexivity|].
+  rewrite out_bind. unfold rbind. unfold out at 1, take.
   match goal with |- context [if ?c then _ else _] => destruct c end; cbn [fst]; discriminate.
 Qed.
 
@@ -471,15 +455,15 @@ Proof.
     + destruct k as [k'|]; [|discriminate]. intros H. apply lift_err in H. destruct H as [H|(nd & Hn & H)]; [apply read_coll_size_err in H; discriminate|].
       destruct (fst nd <? 0); [discriminate|]. revert H. apply map_loop_fuel; [apply (IHk k' eq_refl) | apply IHe | lia].
     + intros H. apply lift_err in H. destruct H as [H|(nd & Hn & H)]; [apply read_coll_size_err in H; discriminate|].
-      destruct (fst nd <? 0); [discriminate|]. revert H. apply list_loop_fuel; [apply IHe | lia].
+      destruct (fst nd <? 0); [discriminate|]. destruct (fst nd >? _); [discriminate|]. revert H. apply list_loop_fuel; [apply IHe | lia].
   - cbn [unmarshal]. generalize (opt_bytes data) as d. induction IH as [|e es IHe IHes IHl]; intros d; [discriminate|].
     intros H. apply lift_err in H. destruct H as [H|(pd & _ & H)].
-    { destruct (blen d >=? 4); [eapply tuple_read_bytes_err, H | discriminate]. }
+    { destruct (blen d >=? 4); [apply tuple_read_bytes_err in H; discriminate | discriminate]. }
     apply lift_err in H. destruct H as [H|(u0 & _ & H)]; [destruct (go_type e); discriminate|].
     apply lift_err in H. destruct H as [H|(u1 & _ & H)]; [eapply IHe, H | eapply IHl, H].
   - cbn [unmarshal]. destruct data as [d|]; [|discriminate]. revert d. induction IH as [|f fs IHf IHfs IHl]; intros d; [discriminate|].
     destruct f as [fnm ft]. cbn [snd] in *. destruct (blen d =? 0); [discriminate|]. destruct (blen d <? 4); [discriminate|].
     intros H. apply lift_err in H. destruct H as [H|(u0 & _ & H)]; [destruct (go_type ft); discriminate|].
-    apply lift_err in H. destruct H as [H|(pd & _ & H)]; [eapply tuple_read_bytes_err, H|].
+    apply lift_err in H. destruct H as [H|(pd & _ & H)]; [apply tuple_read_bytes_err in H; discriminate|].
     apply lift_err in H. destruct H as [H|(u1 & _ & H)]; [eapply IHf, H | eapply IHl, H].
 Qed.
